@@ -377,7 +377,10 @@ def run_check(prop: Property, tier: str, seed: int) -> int:
                         ctx.extra["leanchecker"] = "timeout (not counted)"
         ctx.extra["generated"] = gen
         ctx.extra["build_s"] = round(time.time() - t0, 1)
-        # correspondence + monitor on the real code
+        # correspondence + monitor on the real code. The process works inside the scratch directory: commands the
+        # real code runs through `sh -c` (e.g. witnesses of unquoted redirections) must not litter /verif.
+        os.makedirs(os.path.join(scratch, "cwd"), exist_ok=True)
+        os.chdir(os.path.join(scratch, "cwd"))
         try:
             prop.explore(ctx)
         except DriverError as e:
@@ -477,6 +480,7 @@ def run_check(prop: Property, tier: str, seed: int) -> int:
         print(f"INCONCLUSIVE property={prop.pid}: harness error")
         return 2
     finally:
+        os.chdir(ROOT)
         shutil.rmtree(scratch, ignore_errors=True)
 
 
@@ -485,6 +489,8 @@ def run_replay(prop: Property, path: str) -> int:
     scratch = tempfile.mkdtemp(prefix=f"sfv-{prop.pid}-")
     ctx = Ctx(prop.pid, "quick", data.get("seed", 0), random.Random(0), scratch, time.time() + 600, mode="replay")
     try:
+        os.makedirs(os.path.join(scratch, "cwd"), exist_ok=True)
+        os.chdir(os.path.join(scratch, "cwd"))
         prop.replay(ctx, data)
         for f in ctx.failures:
             print(f"property fails: [{f.key}] {f.detail}")
@@ -492,4 +498,5 @@ def run_replay(prop: Property, path: str) -> int:
             print(f"model and code disagree: {b.what}: {b.detail}")
         return 1 if (ctx.failures or ctx.broken) else 0
     finally:
+        os.chdir(ROOT)
         shutil.rmtree(scratch, ignore_errors=True)
